@@ -364,7 +364,10 @@ pub fn run_c11(env: &Env) -> Report {
             // history: the shared words are typed before the update (that is where staleness lives); some commits learn, and
             // the last word may leave a non-zero preselection behind (per-method state that an update must not carry over)
             let learn_hist = rng.chance(50);
-            for (wi, w) in words.iter().enumerate() { if phon1 { let o = a.type_text(&mut t, w); match full(&o) { Some((c, sl)) if sl < c.len() => { let i = if learn_hist && c.len() > 1 { (sl + 1) % c.len() } else { sl }; a.commit(&mut t, i);
+            for (wi, w) in words.iter().enumerate() { if phon1 { let o = a.type_text(&mut t, w); match full(&o) { Some((c, sl)) if sl < c.len() => { // only the LAST word is learned: an earlier learned word could become the base of a derived entry that a later re-learning
+                        // makes stale in memory (C09.derived_entry_shadows_relearning) — a known difference between an updated and a new context that
+                        // this stream must not trip over
+                        let i = if learn_hist && wi + 1 == words.len() && c.len() > 1 { (sl + 1) % c.len() } else { sl }; a.commit(&mut t, i);
                         if learn_hist && wi + 1 == words.len() { let o2 = a.type_text(&mut t, w); if let Some((c2, s2)) = full(&o2) { if s2 < c2.len() { a.commit(&mut t, s2); } else { a.finish(&mut t); } } } } _ => { a.finish(&mut t); } } } else { for _ in 0..3 { let k = *rng.pick(&['k', 'a', 'm', 'i', 'h']); a.key(&mut t, code_for_char(k).unwrap(), 0, 0); } a.finish(&mut t); } }
             // edits of the user auto-correct file between
             let edit = rng.below(4);
@@ -401,7 +404,11 @@ pub fn run_c11(env: &Env) -> Report {
                                                    (Obs::Single { text: x, .. }, Obs::Single { text: y, .. }) if !x.is_empty() && !y.is_empty() => Some(0), _ => None };
                 match idx { Some(i) if rng.chance(70) => { a.commit(&mut t, i); b.commit(&mut t, i); } _ => { a.finish(&mut t); b.finish(&mut t); } }
                 let (fa, fb) = (std::fs::read(sel_path(&xdg)).ok().and_then(|x| serde_json::from_slice::<HashMap<String, String>>(&x).ok()), std::fs::read(sel_path(&xdg_b)).ok().and_then(|x| serde_json::from_slice::<HashMap<String, String>>(&x).ok()));
-                if fa != fb && !diverged { diverged = true; rep.violation("C11", "updated-context-stores-differently", format!("{} {} -> {} {}: after committing {:?} the selection files differ: updated {:?} vs new {:?}", l1, o1.bits_str(), l2, o2.bits_str(), w, fa, fb),
+                // compared on the words of the continuation only: entries derived for words typed BEFORE the update live in the updated
+                // context's memory and reach its file with the next save; a new context never typed those words (not behaviour of a later event)
+                let (wk, _, _) = { let (p0, w0, r0) = split(w, false); (w0, p0, r0) };
+                let differ = match (&fa, &fb) { (Some(x), Some(y)) => cont.iter().map(|cw| split(cw, false).1).chain(std::iter::once(wk.clone())).any(|k| x.get(&k) != y.get(&k)), (None, None) => false, _ => true };
+                if differ && !diverged { diverged = true; rep.violation("C11", "updated-context-stores-differently", format!("{} {} -> {} {}: after committing {:?} the selection files differ on a word of the continuation: updated {:?} vs new {:?}", l1, o1.bits_str(), l2, o2.bits_str(), w, fa, fb),
                     json!({"stream": "c11", "layout_before": l1, "opts_before": o1.bits_str(), "layout_after": l2, "opts_after": o2.bits_str(), "edit": edit, "events": a.events, "fresh_events": b.events})); }
                 // now and then the configuration is changed once more, in both
                 if rng.chance(20) && !a.imp.ongoing() { let mut o3 = o2; o3.phonetic_suggestion = !o3.phonetic_suggestion; o3.english = rng.chance(50); a.update(&mut t, &l2, o3); b.update(&mut t, &l2, o3); }
